@@ -979,7 +979,10 @@ int main(int argc, char **argv) {
     struct timespec t0; clock_gettime(CLOCK_MONOTONIC, &t0);
     auto elapsed = [&]() { struct timespec t; clock_gettime(CLOCK_MONOTONIC, &t); return (t.tv_sec - t0.tv_sec) + 1e-9 * (t.tv_nsec - t0.tv_nsec); };
     std::vector<std::string> samples;
-    int limit = 3600;                 // while calibrating on the seeds; afterwards max(--cpu, 100 x slowest seed)
+    // while calibrating on the seeds (small fixed programs that take milliseconds): 60 s of CPU time, so
+    // that a seed on which the front end no longer terminates is confirmed (3 x) and reported within
+    // the run instead of stalling it; afterwards max(--cpu, 100 x slowest terminating seed)
+    int limit = 60;
     long produced = 0;
     size_t nextSeed = 0;
     bool calibrated = false;
@@ -1049,7 +1052,7 @@ int main(int argc, char **argv) {
           }
           continue;
         }
-        if (seedBatch && o.cpuMs > maxMs) maxMs = o.cpuMs;
+        if (seedBatch && o.status != "timeout" && o.cpuMs > maxMs) maxMs = o.cpuMs;
         if (o.newcov > 0 && !seedBatch && !mildOn && in.size() <= maxLen) { corpus.push_back(in); ++covAdds; }
         if (!seedBatch && samples.size() < 6 && (execs % 37) == 0) samples.push_back(in.substr(0, 300));
       }
